@@ -160,7 +160,8 @@ class SimulationAlgorithm(BaseSimulationAlgorithm):
                 missing_params.append(param)
                 continue
             value = self.param_study[param]
-            if not isinstance(value, expected_types):
+            # (a boolean is an `int` for `isinstance` but not a valid number)
+            if not isinstance(value, expected_types) or isinstance(value, bool):
                 type_names = (
                     [t.__name__ for t in expected_types]
                     if isinstance(expected_types, tuple)
@@ -169,6 +170,8 @@ class SimulationAlgorithm(BaseSimulationAlgorithm):
                 type_errors.append(
                     f"Parameter '{param}': Expected type {type_names}, given {type(value).__name__}"
                 )
+                # the value cannot be compared
+                continue
             if param == "patient_number" and value <= 0:
                 value_errors.append(
                     "Patient number (patient_number) need to be a positive integer"
@@ -179,12 +182,12 @@ class SimulationAlgorithm(BaseSimulationAlgorithm):
 
         if "min_spacing_between_visits" in self.param_study:
             value = self.param_study["min_spacing_between_visits"]
-            if not isinstance(value, (int, float)):
+            if not isinstance(value, (int, float)) or isinstance(value, bool):
                 type_errors.append(
                     "Parameter 'min_spacing_between_visits': Expected type int or float, "
                     f"given {type(value).__name__}"
                 )
-            if value < 0:
+            elif value < 0:
                 value_errors.append(
                     "Parameter 'min_spacing_between_visits' cannot be negative"
                 )
